@@ -24,7 +24,7 @@ func init() {
 		Phases: func(tier string, seed int64) []Phase {
 			return []Phase{{Name: "histories-plain", Run: func(c *Ctx) { c20Run(c, "plain") }}, {Name: "histories-tls", Run: func(c *Ctx) { c20Run(c, "tls") }}}
 		},
-		MinObserved: []string{"steps", "searches_compared", "op/add", "op/modify", "op/delete", "op/set", "searches_with_odd_parameters", "searches_based_at_a_dn_below_the_groups_base", "searches_for_dns_with_parentheses", "setusers_with_the_same_objects_again", "histories_steps_with_token_groups_configured"},
+		MinObserved: []string{"steps", "searches_compared", "op/add", "op/modify", "op/delete", "op/set", "searches_with_odd_parameters", "searches_based_at_a_dn_below_the_groups_base", "searches_for_dns_with_parentheses", "setusers_with_the_same_objects_again", "histories_steps_with_token_groups_configured", "modifies_without_changes_of_a_missing_entry"},
 	})
 }
 
@@ -423,7 +423,11 @@ func c20History(c *Ctx, td interface {
 					}
 				}
 			}
-			for i, n := 0, 1+r.Intn(3); i < n; i++ {
+			nch := 1 + r.Intn(3)
+			if r.Chance(8) {
+				nch = 0 // a Modify without changes: valid, changes nothing, and still needs its entry to exist
+			}
+			for i, n := 0, nch; i < n; i++ {
 				name := pick(r, c20AttrNames)
 				_, has := scratch[name]
 				switch r.Intn(3) {
@@ -455,7 +459,10 @@ func c20History(c *Ctx, td interface {
 				}
 			}
 			if len(changes) == 0 {
-				continue
+				c.Count("modifies_without_changes", 1)
+				if me == nil {
+					c.Count("modifies_without_changes_of_a_missing_entry", 1)
+				}
 			}
 			trace = append(trace, fmt.Sprintf("modify %s %v", dn, desc))
 			kinds = append(kinds, "M")
